@@ -168,6 +168,7 @@ def finish(prop, tier, seed, repo, hs, results, extra, wall, args):
                 if b.get("samples") and len(samples) < 10:
                     samples.append({"standin": b["name"], "case": b["samples"][0]})
                 for vv in b.get("violations", [])[:3]:
+                    vv = dict(vv, name=b["name"])
                     violations.append({"obligation": "%s.bounded.%s" % (prop, b["name"]), "harness": None, "inputs": vv.get("inputs"), "confirmed": True,
                                        "kind": "bounded", "case": vv, "detail": "bounded stand-in %s: %s" % (b["name"], vv.get("detail")), "solver_output": None})
     # vacuity: every baseline obligation must still be generated
